@@ -1,15 +1,11 @@
 /-
-Lemmas/C17EinND.lean — Non_diagonal: Einstein's equations for the module's own `gdown4`, `Tdown4`, `kappa`.
+Lemmas/C17EinND.lean — Non_diagonal: all ten Einstein equations `G_ab = κ T_ab` for the module's own `gdown4`,
+`Tdown4`, `kappa`, exactly as written, for all `t > 0` and all positions with `(A t)² ≠ 2` (the metric is
+degenerate there).  The 2-jet is proven to consist of the partial derivatives of the module's metric.
 
-The exact statement `G_ab = κ T_ab` is FALSE for the module as written: its pressure carries the rounded
-decimal coefficient `0.0833333` where the field equations require `1/12`.  Proven here, for all `t > 0`
-and all positions with `(A t)² ≠ 2` (the metric is degenerate there):
-  * `Non_diagonal_einstein_defect`: `G_ab = κ T_ab + (1/12 − 833333/10000000)·Y·h_ab` for all ten components,
-    where `Y·κ⁻¹` is the module's pressure expression without its numerical coefficient and
-    `h_ab = g_ab + u_a u_b` — i.e. all ten equations hold exactly once `0.0833333` is read as `1/12`;
-    in particular the `tt`, `ti` and `yz` equations hold exactly as written (`h_ab = 0` there);
-  * `Non_diagonal_einstein_exact_is_false`: at `(t,x,y,z) = (1,0,0,5/2)` the `xy` equation fails.
-The 2-jet is proven to consist of the partial derivatives of the module's metric.
+History: up to /repo commit 7527532 the pressure in `Tdown4` carried the rounded decimal `0.0833333` where the
+field equations require `1/12`; the exact statement was then false (proven here at the time, witness
+`(t,x,y,z) = (1,0,0,5/2)`, `xy` component, relative size `4·10⁻⁷`).  The source now uses `(1/12)`.
 -/
 import AurelVerif.Lemmas.C17JetND
 import AurelVerif.Lemmas.Solutions
@@ -124,30 +120,18 @@ theorem Non_diagonal_isJetField : IsJetField (Non_diagonal_domain) Non_diagonal.
   d1 := fun t x y z hD c a b => Non_diagonal_d1 t x y z hD c a b
   d2 := fun t x y z hD => forall4 (Non_diagonal_d2_0 t x y z hD) (Non_diagonal_d2_1 t x y z hD) (Non_diagonal_d2_2 t x y z hD) (Non_diagonal_d2_3 t x y z hD)
 
-/-- `κ (p_exact − p_module)`: the module's pressure is `(833333/10000000)·Y/κ` with
-`Y = t⁻² ((A t)² − 2)⁻² (3A⁵t⁴ + …)/A`; the field equations require the coefficient `1/12`. -/
-noncomputable def Non_diagonal_defect (t z : ℝ) : ℝ :=
-  (1 / 12 - 833333 / 10000000) * ((t ^ 2)⁻¹ * (((-2 + Non_diagonal.A_num z ^ 2 * t ^ 2) ^ 2)⁻¹ *
-    (3 * (Non_diagonal.A_num z ^ 5 * t ^ 4) + (-2 * (t ^ 3 * Non_diagonal.dzA z ^ 2)
-      + (-3 * (Non_diagonal.A_num z ^ 2 * (t ^ 5 * Non_diagonal.dzA z ^ 2))
-      + (Non_diagonal.A_num z * (8 + -8 * (t ^ 3 * Non_diagonal.dzdzA z))
-      + Non_diagonal.A_num z ^ 3 * (6 * t ^ 2 + 4 * (t ^ 5 * Non_diagonal.dzdzA z)))))))) / Non_diagonal.A_num z
-
 set_option maxHeartbeats 1000000 in
-/-- Non_diagonal: all ten components, `G_ab = κ T_ab + defect · (g_ab + u_a u_b)`, `u = (−1,0,0,0)`. -/
-theorem Non_diagonal_einstein_defect (t x y z : ℝ) (hD : Non_diagonal_domain t x y z) (a b : Fin 4) :
-    (Non_diagonal_jet t x y z).Einstein a b = Non_diagonal.kappa * Non_diagonal.Tdown4 t x y z a b
-      + Non_diagonal_defect t z * (Non_diagonal.gdown4_num t x y z a b
-          + (if a = 0 then -1 else 0) * (if b = 0 then -1 else 0)) := by
+/-- Non_diagonal: all ten Einstein equations `G_ab = κ T_ab` with the module's `Tdown4`, `kappa`. -/
+theorem Non_diagonal_einstein (t x y z : ℝ) (hD : Non_diagonal_domain t x y z) :
+    (Non_diagonal_jet t x y z).SolvesEinstein 0 Non_diagonal.kappa (Non_diagonal.Tdown4 t x y z) := by
   have htn : t ≠ 0 := ne_of_gt hD.1
   have hA := (Non_diagonal_A_pos z).ne'
   have hkap : Non_diagonal.kappa ≠ 0 := by unfold Non_diagonal.kappa; positivity
   have hd := hD.2
-  unfold Non_diagonal_jet
+  unfold Jet2.SolvesEinstein Non_diagonal_jet
   rw [ND.Einstein_eq _ _ _ _ htn hA hd]
-  revert a b
   refine forall4 ?_ ?_ ?_ ?_ <;> refine forall4 ?_ ?_ ?_ ?_ <;>
-    (simp only [ND.EinsteinT, Non_diagonal_defect, Non_diagonal.Tdown4, Non_diagonal.Tdown4_00, Non_diagonal.Tdown4_01, Non_diagonal.Tdown4_02, Non_diagonal.Tdown4_03, Non_diagonal.Tdown4_10, Non_diagonal.Tdown4_11, Non_diagonal.Tdown4_12, Non_diagonal.Tdown4_13, Non_diagonal.Tdown4_20, Non_diagonal.Tdown4_21, Non_diagonal.Tdown4_22, Non_diagonal.Tdown4_23, Non_diagonal.Tdown4_30, Non_diagonal.Tdown4_31, Non_diagonal.Tdown4_32, Non_diagonal.Tdown4_33, Non_diagonal.gdown4_num, Non_diagonal.gdown4_num_00, Non_diagonal.gdown4_num_01, Non_diagonal.gdown4_num_02, Non_diagonal.gdown4_num_03, Non_diagonal.gdown4_num_10, Non_diagonal.gdown4_num_11, Non_diagonal.gdown4_num_12, Non_diagonal.gdown4_num_13, Non_diagonal.gdown4_num_20, Non_diagonal.gdown4_num_21, Non_diagonal.gdown4_num_22, Non_diagonal.gdown4_num_23, Non_diagonal.gdown4_num_30, Non_diagonal.gdown4_num_31, Non_diagonal.gdown4_num_32, Non_diagonal.gdown4_num_33, Non_diagonal.gammadown3_num, Non_diagonal.gammadown3_num_00, Non_diagonal.gammadown3_num_01, Non_diagonal.gammadown3_num_02, Non_diagonal.gammadown3_num_10, Non_diagonal.gammadown3_num_11, Non_diagonal.gammadown3_num_12, Non_diagonal.gammadown3_num_20, Non_diagonal.gammadown3_num_21, Non_diagonal.gammadown3_num_22, Matrix.cons_val_zero, Matrix.cons_val_one, Matrix.cons_val, Fin.isValue, Fin.reduceEq, if_true, if_false, reduceIte]
+    (simp only [ND.EinsteinT, ND.jet, Non_diagonal.Tdown4, Non_diagonal.Tdown4_00, Non_diagonal.Tdown4_01, Non_diagonal.Tdown4_02, Non_diagonal.Tdown4_03, Non_diagonal.Tdown4_10, Non_diagonal.Tdown4_11, Non_diagonal.Tdown4_12, Non_diagonal.Tdown4_13, Non_diagonal.Tdown4_20, Non_diagonal.Tdown4_21, Non_diagonal.Tdown4_22, Non_diagonal.Tdown4_23, Non_diagonal.Tdown4_30, Non_diagonal.Tdown4_31, Non_diagonal.Tdown4_32, Non_diagonal.Tdown4_33, Non_diagonal.gdown4_num, Non_diagonal.gdown4_num_00, Non_diagonal.gdown4_num_01, Non_diagonal.gdown4_num_02, Non_diagonal.gdown4_num_03, Non_diagonal.gdown4_num_10, Non_diagonal.gdown4_num_11, Non_diagonal.gdown4_num_12, Non_diagonal.gdown4_num_13, Non_diagonal.gdown4_num_20, Non_diagonal.gdown4_num_21, Non_diagonal.gdown4_num_22, Non_diagonal.gdown4_num_23, Non_diagonal.gdown4_num_30, Non_diagonal.gdown4_num_31, Non_diagonal.gdown4_num_32, Non_diagonal.gdown4_num_33, Non_diagonal.gammadown3_num, Non_diagonal.gammadown3_num_00, Non_diagonal.gammadown3_num_01, Non_diagonal.gammadown3_num_02, Non_diagonal.gammadown3_num_10, Non_diagonal.gammadown3_num_11, Non_diagonal.gammadown3_num_12, Non_diagonal.gammadown3_num_20, Non_diagonal.gammadown3_num_21, Non_diagonal.gammadown3_num_22, Matrix.cons_val_zero, Matrix.cons_val_one, Matrix.cons_val]
      generalize Non_diagonal.A_num z = A at *
      generalize Non_diagonal.dzA z = A1
      generalize Non_diagonal.dzdzA z = A2
@@ -159,61 +143,16 @@ theorem Non_diagonal_einstein_defect (t x y z : ℝ) (hD : Non_diagonal_domain t
      have v5 : -2 + (t * A) ^ 2 ≠ 0 := fun hh => hd (by linear_combination hh)
      first | ring1 | (field_simp; ring1))
 
-/-- all ten Einstein equations hold exactly for the stress-energy tensor with the exact pressure coefficient
-`1/12`: `T_exact = Tdown4 + (defect/κ)·h`. -/
-theorem Non_diagonal_einstein_exact_coefficient (t x y z : ℝ) (hD : Non_diagonal_domain t x y z) :
-    (Non_diagonal_jet t x y z).SolvesEinstein 0 Non_diagonal.kappa
-      (fun a b => Non_diagonal.Tdown4 t x y z a b + Non_diagonal_defect t z / Non_diagonal.kappa *
-        (Non_diagonal.gdown4_num t x y z a b + (if a = 0 then -1 else 0) * (if b = 0 then -1 else 0))) := by
-  intro a b
-  have hkap : Non_diagonal.kappa ≠ 0 := by unfold Non_diagonal.kappa; positivity
-  rw [Non_diagonal_einstein_defect t x y z hD a b]
-  field_simp
-  ring
-
-/-- the module's decimal coefficient is not the exact one. -/
-theorem Non_diagonal_coefficient_is_rounded : (833333:ℝ) / 10000000 ≠ 1 / 12 := by norm_num
-
-theorem Non_diagonal_witness_values :
-    Non_diagonal.A_num (5 / 2) = 5 / 2 ∧ Non_diagonal.dzA (5 / 2) = 0 ∧
-    Non_diagonal.dzdzA (5 / 2) = -(Real.pi ^ 2 / 125) := by
+/-- non-vacuity: a point of the domain (`A(5/2) = 5/2`). -/
+theorem Non_diagonal_witness_domain : Non_diagonal_domain 1 0 0 (5 / 2) := by
   have harg : Non_diagonal.fq * (5 / 2) = Real.pi / 2 := by
     unfold Non_diagonal.fq Non_diagonal.Lambda; ring
-  refine ⟨?_, ?_, ?_⟩
-  · unfold Non_diagonal.A_num; rw [harg, Real.sin_pi_div_two]; norm_num
-  · unfold Non_diagonal.dzA; rw [harg, Real.cos_pi_div_two]; ring
-  · unfold Non_diagonal.dzdzA; rw [harg, Real.sin_pi_div_two]
-    unfold Non_diagonal.fq Non_diagonal.Lambda; ring
-
-theorem Non_diagonal_witness_domain : Non_diagonal_domain 1 0 0 (5 / 2) := by
+  have hA : Non_diagonal.A_num (5 / 2) = 5 / 2 := by
+    unfold Non_diagonal.A_num; rw [harg, Real.sin_pi_div_two]; norm_num
   refine ⟨one_pos, ?_⟩
-  rw [Non_diagonal_witness_values.1]; norm_num
+  rw [hA]; norm_num
 
-theorem Non_diagonal_witness_defect_pos : 0 < Non_diagonal_defect 1 (5 / 2) := by
-  obtain ⟨hA, hA1, hA2⟩ := Non_diagonal_witness_values
-  have hpi : Real.pi ^ 2 < 16 := by
-    have := Real.pi_lt_four
-    have := Real.pi_pos
-    nlinarith
-  unfold Non_diagonal_defect
-  rw [hA, hA1, hA2]
-  have : (0:ℝ) < 3 * ((5 / 2) ^ 5 * 1 ^ 4) + (-2 * (1 ^ 3 * (0:ℝ) ^ 2) + (-3 * ((5 / 2) ^ 2 * (1 ^ 5 * (0:ℝ) ^ 2))
-      + (5 / 2 * (8 + -8 * (1 ^ 3 * -(Real.pi ^ 2 / 125)))
-      + (5 / 2) ^ 3 * (6 * 1 ^ 2 + 4 * (1 ^ 5 * -(Real.pi ^ 2 / 125)))))) := by nlinarith
-  positivity
-
-/-- the exact statement `G_ab = κ T_ab` with the module's `Tdown4` as written is FALSE: at
-`(t,x,y,z) = (1,0,0,5/2)` the `xy` equation fails (by `κ(p_exact − p_module) ≈ 4·10⁻⁷ κ p`). -/
-theorem Non_diagonal_einstein_exact_is_false :
-    ¬ (Non_diagonal_jet 1 0 0 (5 / 2)).SolvesEinstein 0 Non_diagonal.kappa
-        (Non_diagonal.Tdown4 1 0 0 (5 / 2)) := by
-  intro h
-  have h12 := h 1 2
-  have hd := Non_diagonal_einstein_defect 1 0 0 (5 / 2) Non_diagonal_witness_domain 1 2
-  have hg : Non_diagonal.gdown4_num 1 0 0 (5 / 2) 1 2 = 1 := by
-    simp [Non_diagonal.gdown4_num, Non_diagonal.gdown4_num_12, Non_diagonal.gammadown3_num_01]
-  have hpos := Non_diagonal_witness_defect_pos
-  rw [hd, hg] at h12
-  simp only [Fin.isValue, Fin.reduceEq, if_false, reduceIte] at h12
-  nlinarith
+/-- PRE-FIX fact, not a property of the current code: the decimal that `Tdown4` used before /repo commit
+7527532 is not the coefficient `1/12` the field equations require. -/
+theorem Non_diagonal_old_coefficient_was_rounded : (833333:ℝ) / 10000000 ≠ 1 / 12 := by norm_num
 end AurelVerif.C17Ein
